@@ -256,7 +256,9 @@ def c05(prop, tier):
     thorough = tier == 'thorough'
     ck.rule = ('for every forced behaviour of spec/WritePath.tla the peer\'s ordered effect log (block writes, cache puts) is cut at '
                'every prefix, a fresh instance is started on exactly that durable state and loaded; recovered log compared with the '
-               'acknowledgements issued before the cut; plus clean close/reopen/load, also with the cache (leveldb) and keystore kept in a real directory; non-trivial = overlapping calls/batches')
+               'acknowledgements issued before the cut; plus clean close/reopen/load, also with the cache (leveldb) and keystore kept in a real directory; '
+               'plus behaviours of spec/HeadsCache.tla (several runs of the process; replications before Load, limited loads on the live instance) replayed call by call, '
+               'a copy of the durable state recovered after every step and after every persistence effect inside a step; non-trivial = overlapping calls/batches, or a cache put while the log in memory is not the whole database')
     ck.assumptions = ['each persistence effect is durable once its call returns (the property\'s own assumption); effects are recorded by the simulated block store and cache']
     run_writepath(ck, prop, tier, 3, [1, 2, 3] if not thorough else [1, 2, 3, 4], 10 if not thorough else 60, crash_points=True)
     # several runs of the process: what the cache says the heads are when the log in memory is not the whole database
@@ -327,8 +329,9 @@ def run_headscache(ck, prop, tier, n_sim):
     if not res.get('inconclusive'):
         ck.traces_validated += res.get('behaviours', 0)
     ck.extra['recoveries_after_steps'] = ck.extra.get('recoveries_after_steps', 0) + res['stats'].get('recoveries', 0)
-    log('  headscache: %d behaviours, %d steps, %d comparisons, %d recoveries, %d violations (%d outside this property), drift %d' % (
-        res['behaviours'], res['steps'], res['comparisons'], res['stats'].get('recoveries', 0), len(res['violations']),
+    ck.extra['crash_points_rebuilt'] = ck.extra.get('crash_points_rebuilt', 0) + res['stats'].get('crash_points', 0)
+    log('  headscache: %d behaviours, %d steps, %d comparisons, %d recoveries after steps + %d inside steps, %d violations (%d outside this property), drift %d' % (
+        res['behaviours'], res['steps'], res['comparisons'], res['stats'].get('recoveries', 0), res['stats'].get('crash_points', 0), len(res['violations']),
         len(allv) - len(res['violations']), res['stats'].get('drift', 0)))
     return res
 
